@@ -185,6 +185,11 @@ func (P *Prog) VerifyLemma(lm *Lemma) *Trans {
 
 // Header: base prelude, type ids, tyOf, modules, generated declarations, initial state.
 func (t *Trans) Header() string {
+	t.hdrOnce.Do(func() { t.hdr = t.buildHeader() })
+	return t.hdr
+}
+
+func (t *Trans) buildHeader() string {
 	var b strings.Builder
 	b.WriteString("(set-option :produce-models true)\n(set-logic ALL)\n")
 	b.WriteString(t.P.preludeMods["base"])
